@@ -39,9 +39,9 @@ theorem covN_funcName (f : Node) (c : Cov) (h : covN f = .ok c) : funcName c.mod
   case ret e =>
     cases e <;> simp only [covN, bind, Except.bind, pure, Except.pure] at h
     · cases h; rfl
-    · split at h
-      · cases h
-      · cases h; rfl
+    · repeat' split at h
+      all_goals (try cases h)
+      all_goals rfl
   all_goals (try simp only [covN, bind, Except.bind, pure, Except.pure] at h)
   all_goals (repeat' split at h)
   all_goals (try cases h)
